@@ -38,7 +38,7 @@ STRATA = ["add", "remove", "aspirate", "dispense", "transfer", "distribute", "ev
 
 
 @st.composite
-def _case(draw, focus):
+def _case(draw, focus, tier="quick"):
     q = draw(st.sampled_from([0.01, 0.25, None]))
     scenario = draw(st.sampled_from(["tight", "tight", "supply", "supply", "roomy"] if focus != "distribute" else ["supply", "supply", "tight"]))
     n = 2 if scenario == "supply" else draw(st.integers(1, 2))
@@ -62,11 +62,11 @@ def _case(draw, focus):
         fop = op_evo(vs).map(lambda o: dict(o, op=focus))
     ops = st.one_of(fop, fop, anyop)
     device = "evo" if focus.startswith("evo_") else draw(st.sampled_from(["evo", "fluent"]))
-    return {"labs": labs, "device": device, "q": q, "ops": draw(st.lists(ops, min_size=1, max_size=12))}
+    return {"labs": labs, "device": device, "q": q, "ops": draw(st.lists(ops, min_size=1, max_size=12 if tier == "quick" else 25))}
 
 
 def strategy(tier, stratum):
-    return _case(stratum)
+    return _case(stratum, tier)
 
 
 def _same(a, b):
